@@ -372,7 +372,7 @@ func (ka *eccKeyAgreementGM) processServerKeyExchange(config *Config, clientHell
 	if len(skx.key) <= 2 {
 		return errServerKeyExchange
 	}
-	sigLen := int(skx.key[0]<<8 | skx.key[1])
+	sigLen := int(skx.key[0])<<8 | int(skx.key[1])
 	if sigLen+2 != len(skx.key) {
 		return errServerKeyExchange
 	}
